@@ -30,7 +30,7 @@ ASSUMPTIONS = [
 ]
 PROBES = ["lists", "entries", "entries_changed", "poison_entries", "poison_text", "poison_bg", "three_element_entries", "large_true",
           "empty_list", "duplicates", "calls", "label_checked", "label_skipped_alpha_bg", "mode0", "mode1", "mode2", "very_readable",
-          "status_very_readable", "status_readable", "status_not_readable", "list_entries_form"]
+          "status_very_readable", "status_readable", "status_not_readable", "list_entries_form", "alias_family_entries"]
 
 
 def _colour(rng, rgb, role):
@@ -77,6 +77,19 @@ def generate(rseed, tier, idx):
     if n >= 2 and g.random() < 0.4:  # duplicates
         for _ in range(g.randint(1, 2)):
             L[g.randrange(n)] = copy.deepcopy(L[g.randrange(n)])
+    if n >= 2 and g.random() < 0.4:  # members of one alias family side by side (same other colour, same size)
+        fam = gen.alias_family(g)
+        role = g.choice(("t", "t", "b"))
+        other = _entry(g, vr, 0.0)
+        idxs = g.sample(range(n), min(len(fam), n))
+        for k, i in enumerate(idxs):
+            e = copy.deepcopy(other)
+            e[role] = enc(fam[k])
+            e.pop("poison", None)
+            if role == "b":
+                e["bg_rgb"] = None if refs.any_rgb(fam[k]) is None else list(refs.any_rgb(fam[k]))
+            e["alias"] = True
+            L[i] = e
     perm = list(range(n))
     g.shuffle(perm)
     pe = _entry(g, vr, 1.0)
@@ -179,6 +192,8 @@ def execute(trace):
             bump("three_element_entries")
         if e.get("large"):
             bump("large_true")
+        if e.get("alias"):
+            bump("alias_family_entries")
 
     # ---- 2. the history of bulk calls, all in this one process
     failed_in_base = set()
